@@ -87,20 +87,29 @@ func (p c09) Run(c *core.Ctx) {
 				w.optComp[i] = append(w.optComp[i], s)
 			}
 		}
-		if c.Rng.Intn(4) == 0 {
+		if c.Rng.Intn(3) == 0 {
 			if sc.Nodes[i].Cfg == nil {
 				sc.Nodes[i].Cfg = map[string]world.TagSpec{}
 			}
-			if _, used := sc.Nodes[i].Cfg["CfgI"]; !used {
-				if c.Rng.Intn(2) == 0 {
-					sc.Nodes[i].Cfg["CfgI"] = world.TagSpec{Tag: "value", Val: "${f.absent},required=false"}
-				} else {
-					sc.Nodes[i].Cfg["CfgI"] = world.TagSpec{Tag: "prefix", Val: "f.absent,required=false"}
+			// an optional configuration point whose key is not configured, on every kind of target
+			// (int, list, duration, pointer, map, struct): the field must stay at its zero value
+			cf := []string{"CfgI", "CfgL", "CfgD", "CfgP", "CfgM", "CfgT"}[c.Rng.Intn(6)]
+			if _, used := sc.Nodes[i].Cfg[cf]; !used {
+				switch c.Rng.Intn(3) {
+				case 0:
+					sc.Nodes[i].Cfg[cf] = world.TagSpec{Tag: "value", Val: "${f.absent},required=false"}
+				case 1:
+					sc.Nodes[i].Cfg[cf] = world.TagSpec{Tag: "value", Val: "${f.absent:},Required=false"}
+				default:
+					sc.Nodes[i].Cfg[cf] = world.TagSpec{Tag: "prefix", Val: "f.absent,required=false"}
 				}
-				w.optCfg[i] = append(w.optCfg[i], "CfgI")
+				w.optCfg[i] = append(w.optCfg[i], cf)
 			}
 		}
 	}
+	// service-locator lookups from inside Init (errors swallowed): a failing component may be requested
+	// more than once during one start
+	c.Count("init_lookups", AddInitLookups(c.Rng, sc, 0.3))
 	// baseline
 	base, bexp := w.start(nil)
 	c.Count("starts", 1)
@@ -119,10 +128,13 @@ func (p c09) Run(c *core.Ctx) {
 			}
 		}
 	}
-	for i := range w.optCfg {
-		if v := reflect.ValueOf(base.Nodes[i].Slot()).Elem().FieldByName("CfgI").Int(); v != 0 {
-			c.Fail("", fmt.Sprintf("optional unsatisfiable config field %s.CfgI was written (%d)", sc.Nodes[i].DisplayName(), v), failDetail(sc, base, nil))
-			return
+	for i, cfs := range w.optCfg {
+		for _, cf := range cfs {
+			if v := reflect.ValueOf(base.Nodes[i].Slot()).Elem().FieldByName(cf); !v.IsZero() {
+				c.Fail("", fmt.Sprintf("optional unconfigured config field %s.%s (%s:%q) was written: %#v", sc.Nodes[i].DisplayName(), cf, sc.Nodes[i].Cfg[cf].Tag, sc.Nodes[i].Cfg[cf].Val, v.Interface()), failDetail(sc, base, nil))
+				return
+			}
+			c.Count("optional_config_points_checked", 1)
 		}
 	}
 	nRunners := 0
@@ -313,13 +325,25 @@ func (p c09) inject(c *core.Ctx, w *c09World, faults []fault, bexp world.Expect,
 			reached, unreached = bexp.Must[pi], !bexp.May[pi]
 			if f.Kind == "pp" && f.CB == "early" {
 				// only reached when an early reference of that component is actually requested
-				hit := false
+				// reached = the callback fired outside any service-locator lookup (inside one, the error goes
+				// to the user code that swallows it); fired only inside lookups = not judged
+				hit, hitInLookup := false, false
+				depth := 0
 				for _, e := range r.Log.Events() {
-					if e.Kind == "pp-early" && e.Who == sc.Nodes[f.Node].DisplayName() && e.By == fmt.Sprintf("pp%d", f.PP) {
-						hit = true
+					switch {
+					case e.Kind == "lookup":
+						depth++
+					case e.Kind == "lookup-end":
+						depth--
+					case e.Kind == "pp-early" && e.Who == sc.Nodes[f.Node].DisplayName() && e.By == fmt.Sprintf("pp%d", f.PP):
+						if depth == 0 {
+							hit = true
+						} else {
+							hitInLookup = true
+						}
 					}
 				}
-				reached, unreached = hit, !hit
+				reached, unreached = hit, !hit && !hitInLookup
 			}
 		}
 		if f.Kind != "pp" || f.CB != "early" {
@@ -351,8 +375,12 @@ func (p c09) inject(c *core.Ctx, w *c09World, faults []fault, bexp world.Expect,
 	if anyReached {
 		c.Count("reached_faults", 1)
 		if r.Outcome() != "error" {
-			c.Fail(classifyC09(w, faults), fmt.Sprintf("fault %v was reached but App.Run returned nil", faults), detail())
-			return false
+			class := classifyC09(w, faults)
+			if r.Tracer != nil && earlyRefOfFailedAttemptEscaped(r.Tracer.Events()) {
+				class = "F-C09-dependent-of-failed-attempt"
+			}
+			c.Fail(class, fmt.Sprintf("fault %v was reached but App.Run returned nil", faults), detail())
+			return core.IsKnown("C09", class)
 		}
 		onlyRunner := hasRunnerFaultOnly(faults)
 		reachedNonRunner := false
@@ -365,8 +393,14 @@ func (p c09) inject(c *core.Ctx, w *c09World, faults []fault, bexp world.Expect,
 				reachedNonRunner = true
 			default:
 				if f.Kind == "pp" && f.CB == "early" {
+					depth := 0
 					for _, e := range r.Log.Events() {
-						if e.Kind == "pp-early" && e.Who == sc.Nodes[f.Node].DisplayName() && e.By == fmt.Sprintf("pp%d", f.PP) {
+						switch {
+						case e.Kind == "lookup":
+							depth++
+						case e.Kind == "lookup-end":
+							depth--
+						case depth == 0 && e.Kind == "pp-early" && e.Who == sc.Nodes[f.Node].DisplayName() && e.By == fmt.Sprintf("pp%d", f.PP):
 							reachedNonRunner = true
 						}
 					}
